@@ -33,9 +33,16 @@ pub fn run(n: usize, rng: &mut Rng, rep: &mut Report) {
                 }
             }
             let md = &last_cfg.as_ref().unwrap().1;
+            #[cfg(mdit_verif)]
+            crate::run::hooks::reset(false);
             let t0 = Instant::now();
             let r = parse_render(md, &d);
             let dt = t0.elapsed().as_secs_f64();
+            // every panic of the inline parser MODEL is a memo hit of skip_token beyond the current pos_max
+            // (Props/InlineTotal: parseInline_panic_memo_only); that it never happens under the shipped rules is the
+            // open lemma - counted here on the real code (a count, not a verdict: the property speaks of panics)
+            #[cfg(mdit_verif)]
+            { let h = crate::run::hooks::take(); rep.stats.add("skip_token_memo_hits", h.memo_hits); rep.stats.add("skip_token_memo_hits_beyond_pos_max", h.memo_hits_beyond); }
             let nontrivial = d.chars().any(|ch| "*_[`<&\\>-#".contains(ch));
             rep.stats.case(&input, nontrivial);
             rep.stats.count(if c == cfg::Cfg::stock() { "cfg_stock" } else { "cfg_other" });
